@@ -268,7 +268,9 @@ def enc (h : Hasher) : XVal → Except String Nat
 /-! ### the Go-typed side: convertAnyToString -/
 
 inductive GoVal
-  | f64 (canon : String)                 -- float64/float32: canonical spelling supplied by the oracle
+  | f64 (canon : String) (whole : Option Int)
+      -- float64/float32, seen through two observations supplied by the oracle: its canonical double spelling, and
+      -- `some (int64 v)` when `v == float64(int64(v))` (the test json-gold and float64ToString use for "whole number")
   | str (s : String)
   | int (v : Int)                        -- int, int8..int64
   | uint (v : Nat)                       -- uint, uint8..uint64
@@ -286,6 +288,15 @@ def intToDoubleStr (canonOfInt : Option String) (v : Int) : Except String String
       | none => .error "too-big-f64"
       | some n => if n = v then .ok out else .error "too-big-f64"
 
+/-- float64ToString, and json-gold's spelling of a JSON number coerced to datatype `dt` (ld/node.go objectToRDF):
+    a whole number as an integer with all its digits unless the datatype is xsd:double, anything else as a
+    canonical double. -/
+def numberLex (dt : String) (c : String) (w : Option Int) : String :=
+  if dt = tDouble then c else
+  match w with
+  | some i => toString i
+  | none => c
+
 /-- `canon` = oracle for `GetCanonicalDouble(ParseFloat(s))`; `canonInt` = oracle for
     `GetCanonicalDouble(float64(v))` of the integer carried by the value. -/
 def anyToString (canon : String → Option String) (canonInt : Option String) (v : GoVal) (dt : String) :
@@ -295,12 +306,12 @@ def anyToString (canon : String → Option String) (canonInt : Option String) (v
     | .str s => match canon s with | some c => .ok c | none => .error "parse-float"
     | .int i => intToDoubleStr canonInt i
     | .uint u => intToDoubleStr canonInt u
-    | .f64 c => .ok c
+    | .f64 c w => .ok (numberLex dt c w)
     | .bool b => .ok (if b then "true" else "false")
     | .other => .error "unsupported"
   else
     match v with
-    | .f64 c => .ok c
+    | .f64 c w => .ok (numberLex dt c w)
     | .str s => .ok s
     | .int i => .ok (toString i)
     | .bool b => .ok (if b then "true" else "false")
